@@ -245,6 +245,59 @@ def _repeat_session(job):
     return {"closed": closed, "raised": raised, "late": late, "cbs": out}
 
 
+def _link_progress(job):
+    """an archive with symbolic-link members extracted to a directory with a callback: a link's target text is decoded
+    like any member's bytes and is accounted for like them"""
+    tmp, targets = job
+    import py7zr
+    from py7zr.callbacks import ExtractCallback
+    d = tempfile.mkdtemp(prefix="verif_c18l_", dir=tmp)
+    src = os.path.join(d, "src")
+    os.makedirs(os.path.join(src, "sub"))
+    open(os.path.join(src, "a.txt"), "wb").write(b"A" * 700)
+    open(os.path.join(src, "sub", "b.bin"), "wb").write(b"B" * 1300)
+    os.symlink("a.txt", os.path.join(src, "ln_a"))
+    os.symlink("../a.txt", os.path.join(src, "sub", "ln_up"))
+    os.symlink("sub", os.path.join(src, "ln_dir"))
+    arc = os.path.join(d, "l.7z")
+    with py7zr.SevenZipFile(arc, "w") as z:
+        z.writeall(src, "t")
+
+    class Rec(ExtractCallback):
+        def __init__(self):
+            self.ev = []
+
+        def report_start_preparation(self):
+            self.ev.append(("pre",))
+
+        def report_start(self, p, b):
+            self.ev.append(("s", p, b))
+
+        def report_update(self, b):
+            self.ev.append(("u", b))
+
+        def report_end(self, p, b):
+            self.ev.append(("e", p, b))
+
+        def report_warning(self, m):
+            self.ev.append(("w", m))
+
+        def report_postprocess(self):
+            self.ev.append(("post",))
+    cb = Rec()
+    with py7zr.SevenZipFile(arc, "r") as z:
+        sizes = {f.filename: f.uncompressed for f in z.list() if not f.is_directory}
+        if targets is None:
+            z.extractall(os.path.join(d, "out"), callback=cb)
+        else:
+            z.extract(os.path.join(d, "out"), targets=targets, callback=cb)
+    shutil.rmtree(d, ignore_errors=True)
+    delivered = [n for n in sizes if targets is None or n in targets]
+    return {"update_sum": sum(int(e[1]) for e in cb.ev if e[0] == "u"), "want": sum(sizes[n] for n in delivered),
+            "starts": sorted(e[1] for e in cb.ev if e[0] == "s"), "ends": sorted(e[1] for e in cb.ev if e[0] == "e"), "delivered": sorted(delivered),
+            "first": cb.ev[0][0] if cb.ev else None, "last": cb.ev[-1][0] if cb.ev else None}
+
+
 def select(files, targets, recursive):
     if targets is None:
         return [True] * len(files)
@@ -528,6 +581,18 @@ def run(ctx):
                     ctx.count("iterations-per-slow-member", len(its))
         ctx.correspond("prog.run", lines, impl, classes)
         ctx.correspond("prog.upd", upd_lines, upd_impl)
+        # link members
+        ljobs = [(tmp, None), (tmp, ["t/ln_a"]), (tmp, ["t/sub/ln_up", "t/a.txt"]), (tmp, ["t/ln_dir", "t/sub/b.bin"])]
+        for (_, tg), (st, val) in zip(ljobs, sandbox.pmap(_link_progress, ljobs, timeout=60)):
+            conf = {"archive": "tree with three symbolic links (to a file, upward to a file, to a directory)", "targets": tg, "output": "dir"}
+            ctx.case(key=("links", str(tg)), nontrivial=True, sample=conf)
+            if st != "ok":
+                ctx.fail("C18:links_" + st, "extraction with a callback did not complete: %s" % str(val)[:200], conf)
+                continue
+            if val["update_sum"] != val["want"]:
+                ctx.fail("C18:update_sum", "update events sum to %d, delivered members (links included) hold %d bytes" % (val["update_sum"], val["want"]), dict(conf, result=val))
+            if val["starts"] != val["ends"] or val["first"] != "pre" or val["last"] != "post":
+                ctx.fail("C18:repeat_account", "with link members the account is not complete and well ordered", dict(conf, result=val))
         # repeated extractions with callbacks in one session
         rjobs = []
         for arc in arcs[: (6 if ctx.thorough else 3)]:
